@@ -292,6 +292,8 @@ def free_programs(rng, n, present):
         if 12 not in present:
             rng.shuffle(setup)                 # any order is legal once the NULL-lock finding is repaired
         p += setup
+        if i % 3 == 1:
+            p.append("Second")                 # a second threaded target selected by the same call sites
         kind = i % 4
         if kind == 0:                          # burst against a held worker: fills the backlog, drops, report
             ln = rng.choice([100, 250, 400, 500])
